@@ -191,10 +191,12 @@ def func_get(X, A, a=None, b=None, z=0., funcs=None, kind='cheb',
         funcs = [gen_def_func(ai, bi, ni) for ai, bi, ni in zip(a, b, n)]
 
     try:
-        msg = 'Number of functions must be the same as TT-dimension'
-        assert len(funcs) == d, msg
+        funcs_len = len(funcs)
     except TypeError:
         funcs = [funcs] * d
+    else:
+        msg = 'Number of functions must be the same as TT-dimension'
+        assert funcs_len == d, msg
 
     T = [f(x).T[:, :ni] for f, x, ni in zip(funcs, X.T, n)]
     y = np.ones(m) * z
